@@ -1,6 +1,6 @@
 from common import LEAN_TB
 
-CFG = {'lean_modules': ['ObiVerif.Props.C04'],
+CFG = {'lean_modules': ['ObiVerif.Props.C04', 'ObiVerif.Props.C04W', 'ObiVerif.Props.C04P'],
  'gen': False,
  'thorough_seeds': 4,
  'rule': 'cases = (writer, formatting workers 1..16, plain/gzip output, skip-empty flag, CSV column selection + NA value, annotation flavour, paired files, '
@@ -9,17 +9,25 @@ CFG = {'lean_modules': ['ObiVerif.Props.C04'],
          '4094..4098 bytes) plain and compressed, 24 large batches through 16 and 5 workers, records with separators/quotes/CR/LF/leading blanks/control '
          'characters/backslash-u in identifiers, keys and values (nested lists and maps), integers at the boundaries of the decimal printer (0, ±9/10/99/100, '
          '2^31, 2^53+1, min/max int64), paired output for the four writers (late batch 0, empty batches, 4 workers, gzip; with skip-empty: the two files fall '
-         'out of step, compared with the model only), random permutations of up to 7 batches; thorough: every permutation of n<=6 batches, every subset of '
-         'empty batches of 5 batches, 1..16 workers, and 14 streams per writer of 3..200 batches fed through a real pipeline stage of 2..16 worker goroutines '
-         '(MakeISliceWorker, arrival order left to the scheduler: ~75% of these runs reach the writer out of batch order), plain and compressed, 1..16 '
-         'formatting workers, some paired; with one formatting worker and no pipeline stage the harness forces the arrival order at the writer goroutine; '
-         'non-trivial = distinct history with at least two chunks',
+         'out of step, compared with the model only), obicsv --auto column detection (au=1: first batch delivered = batch 0 or not, with explicit keys, no '
+         'fixed column, maps among the attributes), paired output through the REAL command line (cmd=1: obioptions.GenerateOptionParser(obiconvert.OptionSet) '
+         '+ obiconvert.CLIWriteBioSequences in a child process, with and without --skip-empty / --compress, with and without an empty sequence), output files '
+         'that already exist (ap=1 append: old content kept in front; ap=2: longer old content must be gone), adversarial arrival orders of 300 batches '
+         '(reverse / two interleaved runs / last first), random permutations of up to 7 batches; every plain unpaired case also records the size of every '
+         'Write call the output receives (wr=); thorough adds 10^4-batch and 2000-batch (compressed) adversarial orders per writer; thorough: every '
+         'permutation of n<=6 batches, every subset of empty batches of 5 batches, 1..16 workers, and 14 streams per writer of 3..200 batches fed through a '
+         'real pipeline stage of 2..16 worker goroutines (MakeISliceWorker, arrival order left to the scheduler: ~75% of these runs reach the writer out of '
+         'batch order), plain and compressed, 1..16 formatting workers, some paired; with one formatting worker and no pipeline stage the harness forces the '
+         'arrival order at the writer goroutine; non-trivial = distinct history with at least two chunks',
  'technique': 'Lean 4 theorems on the re-sequencing writer machine composed with the model of the four per-batch formatters (every arrival permutation, every '
               'set of empty batches, arbitrary field bytes), on the two-writer model of paired output, on the JSON reader (white-space stripper + decoder of '
               'C02) and on the injectivity of the CSV text + byte-for-byte differential correspondence of the whole output (formatters included; both files of '
               'a pair) with the real writers driven in forced arrival orders and through a scheduler-ordered multi-worker pipeline, plain and gzip + '
               'comparison of the reader models with encoding/csv and encoding/json on every output + independent re-sequencing / decode-back oracles '
-              '(encoding/json, encoding/csv, line readers, mate of record i at position i of the second file)',
+              '(encoding/json, encoding/csv, line readers, mate of record i at position i of the second file) + the writers run by the model at the level of '
+              'obiutils.Wfile (bufio.Writer of 4096 bytes, transcription of C18) with the sequence of Write-call sizes reaching the output compared call by '
+              'call with the real sink + theorems that the Wfile/bufio/pgzip path delivers exactly the bytes of the plain writer model for every arrival '
+              'history + a small-step model of the goroutines of a paired output with safety, deadlock-freedom and termination theorems for every interleaving',
  'level_text': 'For every n, every arrival permutation of batches 0..n-1 and every subset of empty batches, proved in Lean on the model of formatters + '
                'writer: (order) the outcome of a file does not depend on the arrival order, for every writer, option set and arbitrary records '
                '[file_order_free]; (FASTA) the file is read back by the chunk parser of /repo (7-state machine + header parser, model of C02) as exactly the '
@@ -42,26 +50,54 @@ CFG = {'lean_modules': ['ObiVerif.Props.C04'],
                'FormatFastqBatch, JSONRecord/FormatJSONBatch, CSVHeader/CSVRecord/FormatCVSBatch, csv.Writer quoting, %v, the second writer on PairedWith()) '
                'is tied to the real writers by comparing the whole output (both files of a pair) byte for byte on every case, the CSV reader model is compared '
                'with csv.Reader on every CSV output and the JSON reader model with encoding/json (canonical compact re-encoding of the decoded value) on every '
-               'JSON output.',
+               'JSON output. BYTE PATH TO THE FILE [Props/C04W]: on an output that accepts everything the file content is exactly that of the plain writer '
+               'model for EVERY arrival history (not only permutations), every chunk-size sequence (small chunks followed by chunks >= the buffer and back), '
+               "every buffer size and — compressed — every schedule of pgzip's goroutines: wfile_plain_refines, wfile_plain_refines_json, wfile_gzip_refines "
+               '(bufio.Writer / Dev / pgzip transcriptions of C18, imported unchanged; the re-sequencing machine is parametric in its accumulator: '
+               'WriterWfile.run_sim); hence chunk 0, …, n-1 each once in order at the file, plain and compressed [wfile_plain_in_order(_json), '
+               'wfile_gzip_in_order(_json)], the whole writers formatters included [file_through_wfile, file_through_gzip], and the Write calls received by '
+               'the file concatenate to the file content [file_calls_concat]. PAIRED OUTPUT AT THE COMMAND: obiconvert hands --skip-empty to unpaired outputs '
+               'only (cliSkipEmpty); a paired FASTA/FASTQ output is fatal iff some record or mate has an empty sequence and otherwise no record is skipped in '
+               'either file, so record i of file 2 is the mate of record i of file 1 [cli_paired_in_step_or_fatal]. CSV COLUMN DETECTION (obicsv --auto): the '
+               'detected columns are exactly the keys of the non-map attributes of the records of the first batch delivered, strictly increasing in Go string '
+               'order, appended to the explicit keys [csv_auto_columns]; the file is that header once, then one row per record of all batches in order, read '
+               'back field by field [csv_auto_file_reads_back]; the header depends on which batch is delivered first [csv_auto_depends_on_first_batch]. '
+               'GOROUTINE PROTOCOL OF A PAIRED OUTPUT [Props/C04P, Model/PairedSteps: N1+N2 formatting workers, two writer goroutines, the PairedWith() '
+               'goroutine, consumer, unbuffered channels, Close protocol]: for EVERY interleaving, when writer goroutine 1 / 2 closes its file it has written '
+               'batches 0..n-1 each exactly once in increasing order with an empty map [paired_file1_complete_in_order, paired_file2_complete_in_order], at '
+               'the end both files hold the batches in the same order and the consumer got each batch once [paired_final_in_step], no send on a closed channel '
+               '[paired_no_send_after_close], no deadlock [paired_no_deadlock], every run has at most rank(init) steps [paired_terminates].',
  'level_note': 'Proved for all inputs: order-freeness of every outcome, re-sequencing (all permutations/empty sets), FASTA and FASTQ parse-back of the whole '
                'file, both outcomes on empty sequences (skip / fatal), CSV header-once + full round trip through the reader model + injectivity of the text, '
                "JSON array framing, JSON string escaping, decode-back of the whole indented JSON file to the records' values, paired files in step "
                '(FASTA/FASTQ/JSON; CSV through paired_files_order_free + csv_file_reads_back on each file). Partial / by construction: with skip-empty a '
                'record with an empty sequence whose mate is not empty is left out of file 1 only — the two files of a pair fall out of step '
-               '[paired_skip_empty_out_of_step, concrete stream]; the in-step theorems assume no empty sequence (WF); the harness compares both files with the '
-               'model on such cases and does not apply the in-step oracle (reported to the lead as a candidate finding, not in the property statement). FASTQ '
-               "parse-back needs a quality offset under which no printed quality byte is an end of line (Header.ShiftOK: 33, 64, every offset 14..172) and qualities as long as the sequence. JsonRead.strip is this framework's definition of RFC 8259 insignificant "
-               'white space (trusted as a definition; tied to encoding/json on writer outputs only). NOT proved: that CsvRead.parse equals encoding/csv Reader '
-               'on inputs other than writer outputs (not needed: the reader-independent content is csv_text_injective). Not modelled: float attributes, '
-               'invalid UTF-8 (goccy substitutes U+FFFD), InterfaceToInt conversions of a non-int count/taxid, csv_auto column detection, the title-line '
-               'annotation text of FASTA/FASTQ (FormatFastSeqJsonHeader is data here, property C02), gzip (the harness decompresses the real output; order of '
-               'bytes through Wfile/bufio/pgzip is checked by comparison only), a nil mate in a paired stream. Goroutine liveness (Close protocol, the '
-               'hand-over of batches from the first to the second writer of a pair) is exercised under a watchdog, not proved. The model of JSONRecord is the '
-               'REPAIRED behaviour (notes/patches/C04-json-unescape-breaks-escapes.diff): the unrepaired code wrote raw control characters / broke an escaped '
-               'backslash followed by u (oracle json.invalid on the corpus cases with f=3). dec (strconv.Itoa) is transcribed digit by digit (natDigits), '
-               'validated on boundary integers.',
- 'trusted_base': LEAN_TB + [
-                  'title-line annotation text of FASTA/FASTQ (FormatFastSeqJsonHeader) taken as data (C02)',
+               '[paired_skip_empty_out_of_step, concrete stream]; the in-step theorems assume no empty sequence (WF); this needs skipEmpty AND a paired file, '
+               'a combination no caller in /repo builds: the only caller of WritePairedReadsTo, obiconvert.CLIWriteBioSequences, forwards --skip-empty to '
+               'unpaired outputs only, and on the real command line `--paired-with … --skip-empty` with an empty sequence is fatal (harness cmd=1 cases, '
+               'theorem cli_paired_in_step_or_fatal). Decision: NOT a violation of C04 — every batch is still written exactly once and in order to both files '
+               "(paired_files_order_free), the statement is about batches; kept as a documented property of the writers' API, the harness compares both files "
+               'with the model on such writer-level cases and does not apply the in-step oracle. FASTQ parse-back needs a quality offset under which no '
+               'printed quality byte is an end of line (Header.ShiftOK: 33, 64, every offset 14..172) and qualities as long as the sequence. JsonRead.strip is '
+               "this framework's definition of RFC 8259 insignificant white space (trusted as a definition; tied to encoding/json on writer outputs only). NOT "
+               'proved: that CsvRead.parse equals encoding/csv Reader on inputs other than writer outputs (not needed: the reader-independent content is '
+               'csv_text_injective). Not modelled: float attributes (neither in the model nor in the generator: strconv shortest formatting is not '
+               'transcribed), invalid UTF-8 (goccy substitutes U+FFFD), InterfaceToInt conversions of a non-int count/taxid, the title-line annotation text of '
+               'FASTA/FASTQ (FormatFastSeqJsonHeader is data here, property C02), the deflate coding itself (pgzip is transcribed down to block boundaries / '
+               'listener / Close; the codec is an abstract PCodec and gunzip∘stream = id is the trusted contract of gzip — the harness reads every compressed '
+               'output back with compress/gzip), a nil mate in a paired stream, WriterDispatcher-driven outputs (obidistribute; covered by C19/C18 for '
+               'FASTA/FASTQ only). The Wfile theorems are about an output that accepts every write (failing outputs: property C18). The small-step model of a '
+               'paired output abstracts a batch to its number, merges local computation into the preceding channel operation and takes all channels unbuffered '
+               '(as make(chan …) in the present code); it is not compared with the Go scheduler by the harness (the real paired writers run under a watchdog '
+               'with 1..16 workers); the arrival orders it allows at the two writer goroutines are exactly the ks1/ks2 over which paired_files_order_free '
+               'quantifies. csv_auto in the harness only without a pipeline stage (the first batch delivered must be known to the reference). The model of '
+               'JSONRecord is the REPAIRED behaviour (notes/patches/C04-json-unescape-breaks-escapes.diff): the unrepaired code wrote raw control characters / '
+               'broke an escaped backslash followed by u (oracle json.invalid on the corpus cases with f=3). dec (strconv.Itoa) is transcribed digit by digit '
+               '(natDigits), validated on boundary integers. Defect found and repaired this round: WriteCSVToFile did not truncate an existing output file '
+               '(notes/patches/C04-csv-file-not-truncated.diff; case `csv … ap=2`). Observation (not a violation of the statement): with obicsv --auto the '
+               'header is that of the first batch DELIVERED, so it depends on the schedule when the input is read by several workers, and attributes that '
+               'first occur in later batches get no column [csv_auto_depends_on_first_batch].',
+ 'trusted_base': LEAN_TB + ['title-line annotation text of FASTA/FASTQ (FormatFastSeqJsonHeader) taken as data (C02)',
                   'encoding/json and encoding/csv as decode-back oracles; compress/gzip to read the compressed output back',
                   'goccy/go-json MarshalIndent layout and key order as transcribed in WriterFmt.jVal (validated by byte comparison on every JSON case)',
                   'JsonRead.strip as the definition of insignificant white space of RFC 8259 §2 (compared with encoding/json on every JSON output); '
@@ -72,11 +108,19 @@ CFG = {'lean_modules': ['ObiVerif.Props.C04'],
              'defaults, scientific_name/root/NA, definition, reserved keys id/sequence/qualities, %v rendering of strings/ints/bools/lists/maps, unclamped '
              'quality column), csv.Writer.Write with fieldNeedsQuotes and quote doubling, FormatCVSBatch (header with batch 0 only); a model of encoding/csv '
              'Reader (CsvRead); the second writer of Write…ToFile on iterator.PairedWith() (writePaired: mates of every batch under the same batch number, own '
-             'arrival order); a JSON file reader (JsonRead: white-space stripper + decoder of C02) and the denotation toJ of an annotation tree',
+             'arrival order); a JSON file reader (JsonRead: white-space stripper + decoder of C02) and the denotation toJ of an annotation tree; '
+             'obiutils.Wfile (CompressStream / Write / Close) = bufio.Writer (→ pgzip.Writer) over the output, reusing the transcriptions of C18 '
+             '(Model/WriteErr, WriteDev, WritePgzip), a recording output (RecDev: the Write calls it receives), the column detection of WriteCSV (csv_auto: '
+             'AttributeKeys(true), sort.Strings, CSVKeys appends), the option forwarding of obiconvert.CLIWriteBioSequences for --skip-empty (cliSkipEmpty), '
+             'the goroutines of a paired output as a transition system (Model/PairedSteps.lean)',
  'assumptions': ['each batch number is delivered once to the writer (Contract of C03)',
                  'channel blocking and goroutine termination are runtime behaviour (watchdog only)',
                  'attribute values are strings, ints, bools, lists and string-keyed maps of these; strings are valid UTF-8',
                  'FASTA parse-back: records well formed in the sense of C02 (WF) and the JSON library contract J.OKat of C02 for the title-line annotations',
                  'paired streams: every record of a paired iterator has a mate (BioSequence.PairedWith() non nil) and a batch and its batch of mates carry the '
                  'same number',
-                 'FASTQ parse-back: quality offset with Header.ShiftOK (33, 64, 14..172); stored qualities, when present, are as long as the sequence']}
+                 'FASTQ parse-back: quality offset with Header.ShiftOK (33, 64, 14..172); stored qualities, when present, are as long as the sequence',
+                 'Wfile theorems: the output accepts every write (no error, no short write); compressed: the file has room for the stream (limit) and gunzip '
+                 'inverts the codec',
+                 'paired protocol: at least one formatting worker per writer; channels unbuffered; the source delivers each of 0..n-1 once',
+                 'csv_auto: the first batch delivered by the input iterator is the first one listed (harness: no pipeline stage)']}
